@@ -376,6 +376,28 @@ class Summaries:
             return [(st, ctx.args[0])]
         return ctx.ex.call(st, ctx.fr, mk_callee(FROM, "from", [Tt, U]), {}, [ctx.args[0]], Tt, ctx.span)
 
+    def s_pin_set_state(self, ctx, st):
+        """embedded_hal::digital::OutputPin::set_state"""
+        # the trait's provided method: `match state { Low => self.set_low(), High => self.set_high() }`
+        if ctx.r["kind"] == "body":
+            return None
+        ex = ctx.ex
+        recv, state = ctx.args
+        sty = ctx.gargs[0] if ctx.gargs else None
+        out = []
+        cases = self.split_enum(ex, st, state, 2)
+        for c, var, _fs in cases:
+            s2 = st.fork() if len(cases) > 1 else st
+            if not s2.facts.assume(c, 1):
+                continue
+            callee = mk_callee("embedded_hal::digital::OutputPin", "set_low" if var == 0 else "set_high", [sty] if sty else [])
+            out.extend(ex.call(s2, ctx.fr, callee, {}, [recv], ctx.dest_ty, ctx.span))
+        if len(out) > 1 and not ex.no_merge:
+            # the two arms of the provided method join again, like the `if` it replaces
+            ms, v = ex.merge_states([s_ for s_, _ in out], [v_ for _, v_ in out])
+            return [(ms, v)]
+        return out
+
     def s_from(self, ctx, st):
         """core::convert::From::from"""
         if ctx.r["kind"] == "body":
@@ -384,6 +406,9 @@ class Summaries:
         v = ctx.args[0]
         if T.tkey(Tt) == T.tkey(U):
             return [(st, v)]
+        if Tt.get("k") == "adt" and Tt.get("def") == "embedded_hal::digital::PinState" and isinstance(v, BoolV):
+            # From<bool> for PinState: false -> Low, true -> High
+            return [(st, mk_ite(v.p, Agg("adt", Tt["def"], 1, [], Tt), Agg("adt", Tt["def"], 0, [], Tt)))]
         tb, ub = ctx.ex.ibits(Tt), ctx.ex.ibits(U)
         if tb and ub and isinstance(v, (IntV, BoolV)):
             v = ctx.ex.to_int(v)
